@@ -24,7 +24,16 @@ def _measure22(x):
     return float((e0 - 0.5) ** 2 + (e1 - 0.25) ** 2)
 
 
+def _tied4(x):
+    # every coordinate is pulled towards every other one (steep) and coordinate 0 gently to 1.0
+    n = len(x)
+    return float(sum((x[i] - x[j]) ** 2 for i in range(n) for j in range(i + 1, n)) + 0.25 * (x[0] - 1.0) ** 2)
+
+
 solverlab.COSTS.setdefault('c11_tied', _tied)
+solverlab.COSTS.setdefault('c11_tied4', _tied4)
+solverlab.STARTS.setdefault(4, [[0.03125, 0.25, 0.375, 0.46875]])
+solverlab.STARTS.setdefault(5, [[0.0, 0.0, 0.625, 1.25, 0.3125]])
 solverlab.COSTS.setdefault('c11_measure22', _measure22)
 solverlab.STARTS.setdefault(8, [[1.0, 0.0, 0.75, 0.25, 0.5, 0.5, 0.5, 0.5078125]])   # Lab._build evaluates this default eagerly
 
@@ -95,6 +104,22 @@ def collapse_state(termination):
     return out
 
 
+def skeleton(t):
+    """the And/Or/When structure of a termination with every mask removed (state() flattens it)"""
+    if isinstance(t, tuple):
+        return (type(t).__name__, tuple(skeleton(c) for c in t))
+    doc = t.__doc__ or ''
+    if ' with ' not in doc:
+        return ('?', doc[:40])
+    kind, kwtext = doc.split(' with ', 1)
+    try:
+        kw = dict(eval(kwtext, {'np': np, 'inf': INF, 'nan': float('nan')}))
+    except Exception:
+        return (kind, kwtext)
+    kw.pop('mask', None)
+    return (kind, repr(sorted(kw.items(), key=lambda t: t[0])))
+
+
 def other_state(termination):
     import mystic.termination as mt
     return sorted(doc for doc in mt.state(termination) if not doc.startswith('Collapse'))
@@ -140,7 +165,8 @@ def only_collapse(msg):
 
 class Event(object):
     """one call of solver.Collapse()"""
-    __slots__ = ('nlog', 'before', 'after', 'others_before', 'others_after', 'returned', 'best', 'raised', 'gens', 'in_solve')
+    __slots__ = ('nlog', 'before', 'after', 'others_before', 'others_after', 'returned', 'best', 'raised', 'gens', 'in_solve',
+                 'shape_before', 'shape_after')
 
 
 class Lab11(solverlab.Lab):
@@ -176,6 +202,8 @@ class Lab11(solverlab.Lab):
             ev.in_solve = lab._in_solve
             ev.before = collapse_state(s._termination)
             ev.others_before = other_state(s._termination)
+            ev.shape_before = skeleton(s._termination)
+            ev.shape_after = None
             ev.best = tuple(float(v) for v in np.asarray(s.bestSolution, dtype=float).ravel())
             ev.raised = None
             ev.returned = None
@@ -190,6 +218,7 @@ class Lab11(solverlab.Lab):
             ev.returned = r
             ev.after = collapse_state(s._termination)
             ev.others_after = other_state(s._termination)
+            ev.shape_after = skeleton(s._termination)
             return r
         s.Collapse = spy
 
